@@ -311,6 +311,255 @@ def _sweep_worker(job):
 
 
 # ------------------------------------------------------------------------------------------------
+# G. packed scale records of compiled single-operator networks (D2)
+G_ACCS = [["--accelerator-config", "ethos-u55-128"], ["--accelerator-config", "ethos-u65-512"],
+          ["--accelerator-config", "ethos-u65-256"], ["--accelerator-config", "ethos-u55-256", "--optimise", "Size"]]
+
+
+def g_specs(thorough):
+    specs = []
+    i = 0
+    for rep in range(8 if thorough else 1):
+        for kind in ("conv", "conv_head", "dw", "fc"):
+            for dtype, per_axis in (("int8", False), ("int8", True), ("uint8", False), ("int16", False), ("int16", True)):
+                if kind == "fc" and per_axis:
+                    continue
+                specs.append({"kind": kind, "dtype": dtype, "per_axis": per_axis, "rep": rep, "args": G_ACCS[i % len(G_ACCS)]})
+                i += 1
+    return specs
+
+
+def g_build(spec):
+    """-> (Net, meta): one operator; meta: source operator kind, data type and the float32 scales of the file"""
+    import netgen
+    import numpy as np
+    rng = random.Random("c09g/%s/%s/%s/%s/%s" % (spec["kind"], spec["dtype"], spec["per_axis"], spec["rep"], vlib.seed()))
+    net = netgen.Net("c09_%s_%s" % (spec["kind"], spec["dtype"]))
+    dt, kind = spec["dtype"], spec["kind"]
+    if kind == "fc":
+        x = netgen._inp(net, rng, [1, rng.choice([8, 16, 33, 100])], dt)
+        y = netgen.fully_connected(net, rng, x, rng.choice([2, 10, 16, 33]))
+    elif kind == "conv_head":
+        x = netgen._inp(net, rng, [1, 1, 1, rng.choice([8, 16, 17, 32, 64])], dt)
+        y = netgen.conv2d(net, rng, x, rng.choice([2, 8, 10, 16, 33]), (1, 1), (1, 1), (1, 1), "SAME", "NONE", per_axis=spec["per_axis"])
+    elif kind == "conv":
+        x = netgen._inp(net, rng, [1, rng.choice([4, 7, 9]), rng.choice([4, 6, 11]), rng.choice([3, 8, 16])], dt)
+        k = rng.choice([(1, 1), (3, 3), (2, 3)])
+        y = netgen.conv2d(net, rng, x, rng.choice([3, 8, 16, 33]), k, (1, 1), (1, 1), "SAME", rng.choice(["NONE", "RELU"]),
+                          per_axis=spec["per_axis"])
+    else:
+        x = netgen._inp(net, rng, [1, rng.choice([4, 7, 9]), rng.choice([4, 6, 11]), rng.choice([3, 8, 16, 24])], dt)
+        y = netgen.depthwise(net, rng, x, (3, 3), (1, 1), (1, 1), "SAME", per_axis=spec["per_axis"])
+    net.output(y)
+    o = net.ops[0]
+    xin, wt, bt = o["inputs"][0], o["inputs"][1], (o["inputs"][2] if len(o["inputs"]) > 2 else None)
+    oc = y.shape[-1]
+    ws = wt.scale if isinstance(wt.scale, (list, tuple)) else [wt.scale] * oc
+    f32 = lambda v: float(np.float32(v))
+    meta = {"op": o["kind"], "dtype": dt, "oc": oc, "ifm_scale": f32(xin.scale), "ofm_scale": f32(y.scale),
+            "w_scales": [f32(v) for v in ws], "per_axis": bool(isinstance(wt.scale, (list, tuple))),
+            "bias_dtype": bt.dtype if bt is not None else None,
+            # the reference rule: float product for uint8 and FULLY_CONNECTED, double product otherwise
+            "pprod": 24 if (dt == "uint8" or o["kind"] == "FULLY_CONNECTED") else 53,
+            "reduced": dt == "int16" and bt is not None and bt.dtype == "int64"}
+    return net, meta
+
+
+def g_read_records(words, flash, ncores):
+    """walks the register command stream of the output file; for every convolution-type operation returns the scale
+    bytes of each core (following the DMA that staged them from the read-only tensor).  Independent minimal reader."""
+    from ethosu.vela.ethos_u55_regs.ethos_u55_regs import cmd0, cmd1
+    c0 = {m.name: m.value for m in cmd0}
+    c1 = {m.name: m.value for m in cmd1}
+    FLASH = 0
+    st = {"scale_region": 0, "base": [None, None], "len": [None, None], "dsrc": 0, "ddst": 0, "dlen": 0, "dsr": 0, "ddr": 0}
+    staged = []         # (dst region, dst address, bytes) of DMAs out of the read-only tensor, latest last
+    ops = []
+    i = 0
+    while i < len(words):
+        w = words[i]
+        code, param = w & 0x3FF, w >> 16
+        if (w >> 14) & 1:
+            val = words[i + 1] | (param << 32)
+            if code == c1["NPU_SET_SCALE_BASE"]:
+                st["base"][0] = val
+            elif code == c1["NPU_SET_SCALE_LENGTH"]:
+                st["len"][0] = words[i + 1]
+            elif code == c1["NPU_SET_SCALE1_BASE"]:
+                st["base"][1] = val
+            elif code == c1["NPU_SET_SCALE1_LENGTH"]:
+                st["len"][1] = words[i + 1]
+            elif code == c1["NPU_SET_DMA0_SRC"]:
+                st["dsrc"] = val
+            elif code == c1["NPU_SET_DMA0_DST"]:
+                st["ddst"] = val
+            elif code == c1["NPU_SET_DMA0_LEN"]:
+                st["dlen"] = val
+            i += 2
+            continue
+        if code == c0["NPU_SET_SCALE_REGION"]:
+            st["scale_region"] = param
+        elif code == c0["NPU_SET_DMA0_SRC_REGION"]:
+            st["dsr"] = param & 0x7
+        elif code == c0["NPU_SET_DMA0_DST_REGION"]:
+            st["ddr"] = param & 0x7
+        elif code == c0["NPU_OP_DMA_START"]:
+            if st["dsr"] == FLASH:
+                staged.append((st["ddr"], st["ddst"], bytes(flash[st["dsrc"]:st["dsrc"] + st["dlen"]])))
+        elif code in (c0["NPU_OP_CONV"], c0["NPU_OP_DEPTHWISE"]):
+            per_core = []
+            for c in range(ncores):
+                base, ln = st["base"][c], st["len"][c]
+                if base is None or ln is None:
+                    per_core.append(None)
+                    continue
+                if st["scale_region"] == FLASH:
+                    per_core.append(bytes(flash[base:base + ln]))
+                    continue
+                data = None
+                for reg, dst, bs in reversed(staged):
+                    if reg == st["scale_region"] and dst <= base and base + ln <= dst + len(bs):
+                        data = bs[base - dst:base - dst + ln]
+                        break
+                per_core.append(data)
+            ops.append(per_core)
+        i += 1
+    return ops
+
+
+def g_decode(rec):
+    bias = int.from_bytes(rec[0:5], "little")
+    if bias >= 1 << 39:
+        bias -= 1 << 40
+    return bias, int.from_bytes(rec[5:9], "little"), rec[9] & 0x3F
+
+
+def g_check(tier, res_violation_sink, okx):
+    """compiles the networks, reads the records back, compares.  Returns (evals, dist, diffs, bads)"""
+    import json
+    import os
+    import hashlib
+    import shutil
+    import numpy as np
+    import compiles
+    import artefacts
+    specs = g_specs(tier == "thorough")
+    ndir = os.path.join(vlib.BUILD, "c09_nets")
+    os.makedirs(ndir, exist_ok=True)
+    jobs, metas = [], []
+    for sp in specs:
+        net, meta = g_build(sp)
+        data = net.build()
+        sha = hashlib.sha256(data).hexdigest()[:16]
+        path = os.path.join(ndir, "%s_%s.tflite" % (net.name, sha))
+        if not os.path.exists(path):
+            with open(path + ".tmp", "wb") as f:
+                f.write(data)
+            os.replace(path + ".tmp", path)
+        jobs.append({"tflite": path, "sha": sha, "args": sp["args"], "capture": True, "family": "c09g", "seed": sha})
+        metas.append(dict(meta, spec=sp, path=path, sha=sha))
+    results = compiles.run_all(jobs, timeout=300)
+    evals, diffs, bads = 0, [], []
+    dist = {"networks": len(jobs), "compiled_to_npu": 0, "not_on_npu": [], "unmapped": [], "records": 0,
+            "by_kind": {}, "staged_by_dma": 0}
+    cases, where = [], []
+    for job, meta, r in zip(jobs, metas, results):
+        tag = "%s/%s/%s" % (meta["op"] + ("(head)" if meta["spec"]["kind"] == "conv_head" else ""), meta["dtype"],
+                            "per-channel" if meta["per_axis"] else "per-tensor")
+        a = artefacts.load(r) if r.get("status") == "ok" else None
+        if not a or not a["npu"] or not a.get("capture") or not a["capture"].get("streams"):
+            dist["not_on_npu"].append(tag + ":" + str(r.get("status")))
+            continue
+        acc = artefacts.job_accel(job)
+        ncores = 2 if acc == "ethos-u65-512" else 1
+        npu = a["npu"][0]
+        ops = g_read_records(npu["words"], npu["flash"], ncores)
+        cops = [o for o in a["capture"]["streams"][0]["ops"] if o["cls"] in ("NpuConv2DOperation", "NpuConvDepthWiseOperation")]
+        if len(ops) != len(cops) or not ops or len(a["npu"]) != 1:
+            dist["unmapped"].append(tag)
+            continue
+        dist["compiled_to_npu"] += 1
+        if any(o.get("cmd", {}).get("kind") == "dma" for o in a["capture"]["streams"][0]["ops"]):
+            dist["staged_by_dma"] += 1
+        seen = set()
+        for per_core, co in zip(ops, cops):
+            d0, d1 = co["cmd"]["ofm_box"]["start"][-1], co["cmd"]["ofm_box"]["end"][-1]
+            for c in range(ncores):
+                chans = list(range(d0 + c, d1, ncores))
+                data = per_core[c]
+                if not chans:
+                    continue
+                if data is None or len(data) < 10 * len(chans):
+                    dist["unmapped"].append(tag + ":scale bytes")
+                    continue
+                for k, ch in enumerate(chans):
+                    if ch in seen:
+                        continue
+                    seen.add(ch)
+                    _, mult, shift = g_decode(data[10 * k:10 * k + 10])
+                    cases.append((meta["pprod"], 1 if meta["reduced"] else 0) + decomp(meta["ifm_scale"]) + decomp(meta["w_scales"][ch])
+                                 + decomp(meta["ofm_scale"]))
+                    where.append((meta, tag, ch, mult, shift, job))
+        dist["by_kind"][tag] = dist["by_kind"].get(tag, 0) + len(seen)
+        if len(seen) != meta["oc"]:
+            dist["unmapped"].append(tag + ":%d of %d channels" % (len(seen), meta["oc"]))
+    outs = models.run("conv_scale", cases, exe_name=EXE) if okx and cases else [None] * len(cases)
+    for (meta, tag, ch, mult, shift, job), o in zip(where, outs):
+        evals += 1
+        dist["records"] += 1
+        si, sw, so = meta["ifm_scale"], meta["w_scales"][ch], meta["ofm_scale"]
+        # the reference, transcribed independently of the Coq model
+        if meta["pprod"] == 24:
+            eff = float(np.float64(np.float32(si) * np.float32(sw)) / np.float64(so))
+        else:
+            eff = float(np.float64(si) * np.float64(sw) / np.float64(so))
+        q, stl = tfl_qm(eff)
+        if o is not None and [q, stl] != o[2:4]:
+            diffs.append(("tfl_conv_params(transcriptions)", {"scales": [si, sw, so], "pprod": meta["pprod"]}, [q, stl], o[2:4]))
+        if meta["reduced"]:
+            exp = ((q + 32768) >> 16 if q < 0x7FFF0000 else 0x7FFF, 15 - stl)
+        else:
+            exp = (q, 31 - stl)
+        if o is not None and [mult, shift] != o[0:2]:
+            diffs.append(("conv_packed_scale (record read back from %s)" % os.path.basename(meta["path"]),
+                          {"net": tag, "channel": ch, "scales": [si, sw, so]}, [mult, shift], o[0:2]))
+        got = Fraction(mult) * pow2(-shift)
+        why = None
+        exact = Fraction(si) * Fraction(sw) / Fraction(so)
+        if meta["reduced"]:
+            if not 0 < mult <= 32767:
+                why = "reduced multiplier %d not in (0, 32767]" % mult
+            elif abs(got - exact) > exact * pow2(-14):
+                why = "relative error to the real scale exceeds 2^-14"
+        else:
+            if not (1 << 30) <= mult <= T31:
+                why = "multiplier %d not in [2^30, 2^31]" % mult
+            elif meta["pprod"] == 53 and abs(got - exact) > exact * (pow2(-31) + pow2(-51)):
+                why = "relative error %.3g to the real scale exceeds 2^-31" % float(abs(got - exact) / exact)
+            elif meta["pprod"] == 24 and abs(got - Fraction(eff)) > Fraction(eff) * pow2(-31):
+                why = "relative error to the reference's effective scale exceeds 2^-31"
+        if why is None and got != Fraction(exp[0]) * pow2(-exp[1]):
+            why = "differs from the reference pair (%d, %d) [QuantizeMultiplier gives q=%d, shift=%d]" % (exp[0], exp[1], q, stl)
+        if why and all(b_[0] != "packed-" + tag for b_ in bads):
+            rdir = os.path.join(vlib.ROOT, "replay")
+            os.makedirs(rdir, exist_ok=True)
+            rp = os.path.join(rdir, "C09-net-%s.tflite" % meta["sha"])
+            try:
+                shutil.copyfile(meta["path"], rp)
+            except OSError:
+                rp = meta["path"]
+            bads.append(("packed-" + tag,
+                         {"artefact": "packed scale record", "operator": meta["op"], "kind": meta["spec"]["kind"], "dtype": meta["dtype"],
+                          "per_channel": meta["per_axis"], "channel": ch, "network": meta["sha"]},
+                         {"network": rp, "vela_args": job["args"], "operator": meta["op"], "spec": meta["spec"], "channel": ch,
+                          "ifm_scale": si, "weight_scale": sw, "ofm_scale": so, "record": [mult, shift], "reference": list(exp),
+                          "reference_rule": "double(float32(in*w))/double(out)" if meta["pprod"] == 24 else "double(in)*double(w)/double(out)",
+                          "reason": why},
+                         "compiled %s: scale record of channel %d is (%d, %d): %s" % (tag, ch, mult, shift, why)))
+    return evals, dist, diffs, bads
+
+
+# ------------------------------------------------------------------------------------------------
 class _Emit:
     """stands in for CommandStreamEmitter: records the last write of each scale register"""
 
@@ -752,6 +1001,18 @@ def run(tier):
     evals += site_n
     lap('F')
     dist["call_sites"] = {"evaluations": site_n, "scale_types": ["float", "float32"]}
+
+    # ---------------------------------------------------------------------------------------------
+    # G. what is packed into the scale records of compiled networks (read back from the output files)
+    g_evals, g_dist, g_diffs, g_bads = g_check(tier, None, okx)
+    evals += g_evals
+    diffs += g_diffs
+    for cls, k, d, w in g_bads:
+        note_bad(cls, k, d, w)
+    for t_, n_ in g_dist["by_kind"].items():
+        nontrivial.add(("packed", t_, n_))
+    dist["compiled_networks(packed scale records)"] = g_dist
+    lap('G')
 
     # ---------------------------------------------------------------------------------------------
     res.cov.update({
